@@ -7,7 +7,8 @@ C13 — advertised thread safety: concurrent API use is serialised and never dea
       the four callback macros, N threads (`Tid → …`, any number) each running a well-nested token program (`wn`),
       interleaved one token at a time (`Step`), blocking on the mutex (`tokStep … = none`).
   T1 = Generated/ThreadCfg.lean: what the build systems configure (is `#if COAP_THREAD_SAFE` taken, what does
-      coap_threadsafe_is_supported() say), every COAP_API wrapper and every callback invocation site of the tree.
+      coap_threadsafe_is_supported() say), every COAP_API wrapper and every callback invocation site of the tree,
+      the lock balance of every function that releases / takes the lock itself (`lockWindows`).
 
 All theorems below hold for **any** number of threads, **any** well-nested programs, **any** interleaving (they are
 statements about every `Reach`able state, proved from the invariant `Inv` of Lemmas/Lock.lean) and for both variants
@@ -43,6 +44,21 @@ example : ∃ c ∈ Generated.callbackSites, c.listed = false ∧ c.wrapped = fa
 /-- every invocation of a callback of the types the property enumerates (request, response, NACK, event, ping and pong
 handlers) goes through one of the coap_lock_callback* macros -/
 theorem callback_sites_wrapped_partial : ∀ c ∈ Generated.callbackSites, c.listed = true → c.wrapped = true := by
+  decide
+
+/-- **release windows inside the library are balanced.**  Every function of the compiled sources that releases or
+takes the global lock itself (COAP_API wrappers, coap_new_context, the callback-release sites, and the window around
+the blocking wait in coap_io_process_with_fds_lkd: `coap_lock_unlock(ctx); epoll_wait(…); coap_lock_lock(ctx, …)`)
+reaches every `return` / its end / every loop back-edge at the lock level it was entered with, the failure action of
+every re-lock leaves the function, and nothing inside a release window touches library state.  (T1: the facts are
+recomputed from the tree by extract/lockbal.py on every run — path-sensitive over the statement tree.) -/
+theorem internal_windows_balanced : ∀ f ∈ Generated.lockWindows, f.balanced = true := by
+  have h : Generated.lockWindows.all LockFn.balanced = true := by decide
+  exact fun f hf => List.all_eq_true.mp h f hf
+
+/-- the scan saw the construct: a non-API function entered with the lock held that unlocks and re-locks -/
+theorem internal_windows_seen :
+    ∃ f ∈ Generated.lockWindows, f.api = false ∧ f.entryHeld = true ∧ 0 < f.unlocks ∧ 0 < f.locks := by
   decide
 
 /-- the scan saw something -/
@@ -289,6 +305,75 @@ theorem all_done_lock_initial (hw : ∀ t, wn [] (progs t) = true) (hr : Reach r
   match hst : (s.thr t).stack with
   | [] => rfl
   | f :: st => rw [hst] at hwn; simp [Lock.wn] at hwn
+
+/-! ## release windows (`Cb.win`): the I/O thread waiting in coap_io_process()
+
+`mutual_exclusion`, `balanced`, `no_deadlock`, … above are stated for all well-nested programs, and `wn` admits
+`cbIn win … cbOut win` wherever it admits a callback macro, so they cover programs with release windows.  The two
+theorems below are what the window is *for*. -/
+
+/-- a thread inside a release window (or a `…_release` callback) directly under a top-level API call does not hold
+the mutex -/
+theorem window_mutex_free (hw : ∀ t, wn [] (progs t) = true) (hr : Reach rc progs s) {t : Tid} {k : Cb}
+    (hk : k.releases = true) (hst : (s.thr t).stack = [.cb k, .api]) : s.g.owner ≠ some t := by
+  have hv := ((inv_reach hw hr).thr t).view
+  rw [hst] at hv
+  intro ho
+  simp [view, ho, interp, pushA, hk, lockA, unlockA, A.zero] at hv
+
+/-- **while another thread sits in coap_io_process()** (inside the release window around its blocking wait) and all
+remaining threads are at their top level, a public API call of any other thread is not refused -/
+theorem api_call_enters_during_window (hw : ∀ t, wn [] (progs t) = true) (hr : Reach rc progs s) {t u : Tid} {k : Cb}
+    (hk : k.releases = true) (hst : (s.thr t).stack = [.cb k, .api]) (hothers : ∀ v, v ≠ t → (s.thr v).stack = [])
+    {rest : List Tok} (hp : (s.thr u).prog = .lock :: rest) : enabled rc s u := by
+  have hi := inv_reach hw hr
+  have hno : s.g.owner = none := by
+    cases ho : s.g.owner with
+    | none => rfl
+    | some v =>
+      by_cases hvt : v = t
+      · subst hvt; exact absurd ho (window_mutex_free hw hr hk hst)
+      · have hv := (hi.thr v).view
+        rw [hothers v hvt] at hv
+        simp [view, ho, interp, A.zero] at hv
+  have htu := hi.thr u
+  rw [hp] at htu
+  have ga := app_view_of_blocking htu (Or.inl rfl)
+  cases hs : tokStep rc u .lock s.g with
+  | some g' => exact ⟨_, _, g', hp, hs⟩
+  | none =>
+    obtain ⟨v, _, hv⟩ := (lock_blocks_iff hi.cons ga).1 hs
+    rw [hno] at hv
+    cases hv
+
+/-- thread 0: coap_io_process() = an API call with a release window; thread 1: an API call that runs an event handler -/
+def ioProgs : Tid → List Tok
+  | 0 => [.lock, .cbIn .win, .cbOut .win, .unlock]
+  | 1 => [.lock, .cbIn .keep, .cbOut .keep, .unlock]
+  | _ => []
+
+example : ∀ t, wn [] (ioProgs t) = true := by
+  intro t
+  match t with
+  | 0 => decide
+  | 1 => decide
+  | _ + 2 => rfl
+
+/-- non-vacuity: the I/O thread is in its window, thread 1 has entered the library meanwhile; the I/O thread's re-lock
+(`cbOut win`) is refused until thread 1 returns — which it can (the seeded defect "EINTR path skips the re-lock" is a
+program that is *not* of this shape: T1 `internal_windows_balanced` is what excludes it) -/
+example : ∃ s, Reach false ioProgs s ∧ (s.thr 0).stack = [.cb .win, .api] ∧ inLib s 1 ∧ blocked false s 0 ∧
+    enabled false s 1 := by
+  refine ⟨_, Reach.step (Reach.step (Reach.step Reach.init
+    (Step.mk (Sys.init ioProgs) 0 .lock _ _ rfl rfl)) (Step.mk _ 0 (.cbIn .win) _ _ rfl rfl))
+    (Step.mk _ 1 .lock _ _ rfl rfl), rfl, rfl, ?_, ?_⟩
+  · exact ⟨.cbOut .win, _, rfl, by decide⟩
+  · exact ⟨.cbIn .keep, _, _, rfl, rfl⟩
+
+/-- one thread alone: `lock; window; unlock` runs through and leaves the lock in its initial state -/
+example : runSeq (tokStep false) 0 (ioProgs 0) G.init =
+    [some ⟨true, 0, 0, true, false⟩, some ⟨false, 0, 0, false, false⟩, some ⟨true, 0, 0, true, false⟩,
+     some ⟨false, 0, 0, false, false⟩] := by decide
 
 /-! ## the pinned defect, as a `decide`d witness: `[api [callback_ret []]]`
 
